@@ -167,7 +167,32 @@ def schema_argument(rng, *, modal=False, quant=False, ident=False, depth=2):
         lambda: ([Quantified(U, X, b2(O.Conjunction, P1(X), P2(X))), P1(c), P2(c2)], B),
         lambda: ([neg(Quantified(E, X, P1(X))), neg(P1(c))], B),
     ]
+    # identity: Leibniz-style schemata, also with the identity / the predication inside a modal context and with the
+    # rewritten predication already present at another world (redundancy)
+    Id = Predicate.Identity
+    ca, cb, cc = rng.sample(CONSTS, 3) if len(CONSTS) >= 3 else (CONSTS[0], CONSTS[1], CONSTS[0])
+    conj = lambda x, y: b2(O.Conjunction, x, y)
+    idents = [
+        lambda: ([Id(ca, cb), P1(ca)], P1(cb)),
+        lambda: ([Id(ca, cb), R2(ca, cc)], R2(cb, cc)),
+        lambda: ([Id(ca, cb), Id(cb, cc), P1(ca)], P1(cc)),
+        lambda: ([Id(ca, cb), neg(P1(cb))], neg(P1(ca))),
+        lambda: ([P1(ca), neg(P1(cb))], neg(Id(ca, cb))),
+        lambda: ([Id(ca, cb), P1(ca), neg(P1(cb))], B),
+        lambda: ([Id(ca, cb), P1(ca), P1(cb)], P2(cb)),
+    ]
+    idents_modal = [
+        lambda: ([dia(conj(Id(ca, cb), P1(ca)))], dia(P1(cb))),
+        lambda: ([box(Id(ca, cb)), dia(P1(ca))], dia(P1(cb))),
+        lambda: ([dia(conj(Id(ca, cb), conj(P1(ca), neg(P1(cb)))))], C),
+        lambda: ([dia(conj(Id(ca, cb), conj(P1(ca), neg(P1(cb))))), P1(cb)], C),
+        lambda: ([box(Id(ca, cb)), dia(conj(P1(ca), neg(P1(cb)))), P1(cb)], C),
+        lambda: ([dia(conj(Id(ca, cb), conj(R2(ca, cc), neg(R2(cb, cc))))), R2(cb, cc)], C),
+        lambda: ([Id(ca, cb), dia(P1(ca))], dia(P1(cb))),
+    ]
     pool = list(props) + [lambda: ([b2(O.Conjunction, A, B), A], C), lambda: ([neg(b2(O.Disjunction, A, B)), neg(B)], C)]
+    if ident:
+        pool = pool[:6] + idents * 2 + (idents_modal * 3 if modal else [])
     if modal:
         pool += modals * 2 + redundant_modal * 2
     if quant:
